@@ -1,13 +1,129 @@
 (* C03 - property theorems only. *)
 From HV Require Import Prelude Tracts C01_Model C14_Model C03_Model C03_Check C03_Proofs.
 
+(* searchsorted(side='right') + np.diff + np.repeat = first block whose end >= position,
+   for all ascending position lists and ascending tract ends reaching every position *)
+Theorem C03_assign_is_first_ge :
+  forall ps ends,
+  asc ps -> asc ends ->
+  (forall p, In p ps -> exists e, last_opt ends = Some e /\ p <= e) ->
+  assign ps ends = Ok (map (first_ge ends) ps).
+Proof. exact assign_is_first_ge. Qed.
+Print Assumptions C03_assign_is_first_ge.
+
+(* the block found ends at or after the position, all earlier blocks end before it *)
+Theorem C03_first_ge_spec :
+  forall ends p, (exists e, In e ends /\ p <= e) ->
+  exists e, nth_error ends (first_ge ends p) = Some e /\ p <= e /\
+            forall j e', (j < first_ge ends p)%nat -> nth_error ends j = Some e' -> e' < p.
+Proof. exact first_ge_spec. Qed.
+Print Assumptions C03_first_ge_spec.
+
+(* a variant exactly on a block end belongs to that block *)
+Theorem C03_variant_on_block_end :
+  forall ends i e,
+  (forall j e', (j < i)%nat -> nth_error ends j = Some e' -> e' < e) ->
+  nth_error ends i = Some e -> first_ge ends e = i.
+Proof. exact first_ge_on_end. Qed.
+Print Assumptions C03_variant_on_block_end.
+
+(* the assignment is the breakpoints' own lookup (label_at) on the chromosome's tracts *)
+Theorem C03_assign_agrees_with_label_at :
+  forall segs c p, (forall s, In s segs -> chrom s = c) ->
+  label_at segs c p = option_map pop (nth_error segs (first_ge (map endc segs) p)).
+Proof. exact first_ge_label. Qed.
+Print Assumptions C03_assign_agrees_with_label_at.
+
+(* POP / SAMPLE are emitted exactly when requested (and the output is not PGEN) *)
 Theorem C03_writer_emits :
   forall pgen pf sf,
   emits_pop pgen pf sf = (pf && negb pgen) /\ emits_sample false pgen pf sf = (sf && negb pgen).
 Proof. exact writer_emits. Qed.
 Print Assumptions C03_writer_emits.
 
+(* no output row of a simulated haplotype is left uninitialised, whatever chromosomes the
+   reference holds and in whatever order, for all draw streams and both replacement modes *)
+Theorem C03_no_uninitialised :
+  forall norep npop d cur_chr chroms rd hap st arr st',
+  let ov := out_vars cur_chr chroms rd in
+  output_hap false norep npop d cur_chr ov hap chroms st = Ok (arr, st') ->
+  (forall c, In c chroms -> chrom_covered hap c (cvars_of cur_chr c ov)) ->
+  length arr = length ov /\ forall i, (i < length ov)%nat -> filled arr i.
+Proof. exact no_uninitialised. Qed.
+Print Assumptions C03_no_uninitialised.
+
+(* rows written = the reference's variants on the requested chromosomes (reference order), nothing else *)
+Theorem C03_out_vars_spec :
+  forall cur_chr chroms rd iv,
+  In iv (out_vars cur_chr chroms rd) <->
+  In iv rd /\ exists c, In c chroms /\ on_chrom cur_chr c (snd iv) = true.
+Proof. exact out_vars_spec. Qed.
+Print Assumptions C03_out_vars_spec.
+
+(* soundness of the boolean checkers evaluated on the implementation's output *)
+Theorem C03_hap_ok_sound :
+  forall c out h,
+  hap_ok c out h = true -> sorted (nth_or [] (g_bps c) h) ->
+  forall it, In it (items_of c out h) -> forall k, i_key it = Some k ->
+  (exists r u, In r (cands c (snd k)) /\ (u = 0 \/ u = 1) /\
+     forall it', In it' (items_of c out h) -> i_key it' = Some k ->
+       exists a, i_gt it' = Some a /\ lookup (g_data c) r (i_oidx it') u = Some a /\
+                 (forall s, i_smp it' = Some s -> s = Some r))
+  /\ (forall p, i_pop it = Some p -> p = Some (snd k)).
+Proof. exact hap_ok_sound. Qed.
+Print Assumptions C03_hap_ok_sound.
+
+Theorem C03_block_key_is_label_at :
+  forall l c p i, option_map snd (block_key l c p i) = label_at l c p.
+Proof. exact block_key_label. Qed.
+Print Assumptions C03_block_key_is_label_at.
+
+Theorem C03_holds_out_sound :
+  forall c out,
+  holds_out c out = true ->
+  (g_pop_field c = true -> g_pgen c = false -> o_pop out <> None) /\
+  (g_sample_field c = true -> g_pgen c = false -> o_smp out <> None) /\
+  length (o_gt out) = length (g_bps c) /\
+  (forall h, (h < length (g_bps c))%nat -> hap_ok c out h = true) /\
+  (uniform_prefix (g_vars c) = true ->
+   o_vars out = map fst (filter (fun iv : Z * rvar => existsb (Z.eqb (rv_chrom (snd iv))) (g_chroms c))
+                                (read_vars (g_region c) (g_vars c)))).
+Proof. exact holds_out_sound. Qed.
+Print Assumptions C03_holds_out_sound.
+
+Theorem C03_holds_assign_sound :
+  forall k, holds_assign k = true -> assign_pre (a_pos k) (a_ends k) = true ->
+  a_obs k = Ok (map (fun p => Z.of_nat (first_ge (a_ends k) p)) (a_pos k)).
+Proof. exact holds_assign_sound. Qed.
+Print Assumptions C03_holds_assign_sound.
+
+Theorem C03_assign_pre_sound :
+  forall pos ends, assign_pre pos ends = true ->
+  asc pos /\ asc ends /\ forall p, In p pos -> exists e, last_opt ends = Some e /\ p <= e.
+Proof. exact assign_pre_sound. Qed.
+Print Assumptions C03_assign_pre_sound.
+
+(* the pinned tree violated the property *)
 Theorem C03_legacy_sample_dropped_refuted :
   emits_sample true false true true = false /\ emits_sample false false true true = true.
 Proof. exact legacy_sample_dropped_refuted. Qed.
 Print Assumptions C03_legacy_sample_dropped_refuted.
+
+Theorem C03_legacy_extra_chrom_refuted :
+  arr_of (hap_loop_legacy false 3 ex_data false (read_vars None ex_vars) ex_hap [1; 3] 0
+            (repeat None 3) ex_st)
+  = [Some (0, 1, 0); Some (0, 2, 1); None]
+  /\ map fst (out_vars false [1; 3] (read_vars None ex_vars)) = [0; 2]
+  /\ arr_of (output_hap false false 3 ex_data false (out_vars false [1; 3] (read_vars None ex_vars))
+               ex_hap [1; 3] ex_st)
+  = [Some (0, 1, 0); Some (3, 2, 1)].
+Proof. exact legacy_extra_chrom_refuted. Qed.
+Print Assumptions C03_legacy_extra_chrom_refuted.
+
+(* hypotheses of C03_assign_is_first_ge are satisfiable (variant on a block end, variant past every marker) *)
+Theorem C03_assign_example :
+  asc [10; 11; 30; 5000] /\ asc [10; 25; 2147483647] /\
+  (forall p, In p [10; 11; 30; 5000] -> exists e, last_opt [10; 25; 2147483647] = Some e /\ p <= e) /\
+  assign [10; 11; 30; 5000] [10; 25; 2147483647] = Ok [0; 1; 2; 2]%nat.
+Proof. exact assign_example. Qed.
+Print Assumptions C03_assign_example.
